@@ -30,3 +30,223 @@ class Term:
 
     def __setstate__(self, st):
         self.i, self.args = st
+
+
+# ----------------------------------------------------------------------------------------------------------------------
+# Objects with an identity: the pool the C17 generator draws parameter / field / specification defaults (and supplied
+# values) from.  For each of them equality, identity and copying are different things in some way.  They are module
+# level objects so that generated source files can name them (`from pwh.nodes_c17 import POOL as _P; def f(x=_P[3])`),
+# the bare twin and the node function then share ONE default object, as a sentinel idiom requires.  The canonical token
+# of a pool object is `@<index>.<kind>` and is given by IDENTITY (`v is POOL[index]`), never by `==`.
+# ----------------------------------------------------------------------------------------------------------------------
+
+import enum as _enum
+
+
+class Marker:
+    """a marker instance, compared by identity like `None` would be (default `__eq__`)"""
+
+    __slots__ = ("_pk",)
+
+    def __init__(self, pk):
+        self._pk = pk
+
+    def __repr__(self):
+        return f"MARK{self._pk}"
+
+
+class NeverEq:
+    """`==` is always False, even with itself (like NaN); hashable by identity"""
+
+    def __init__(self, pk):
+        self._pk = pk
+
+    def __eq__(self, other):
+        return False
+
+    def __ne__(self, other):
+        return True
+
+    __hash__ = object.__hash__
+
+
+class AlwaysEq:
+    """`==` is always True (equal to NOT_DATA, to inspect.Parameter.empty, to dataclasses.MISSING, to any other value)"""
+
+    def __init__(self, pk):
+        self._pk = pk
+
+    def __eq__(self, other):
+        return True
+
+    def __ne__(self, other):
+        return False
+
+    __hash__ = object.__hash__
+
+
+class NoCopy:
+    """refuses to be copied, deep-copied or pickled (a lock, a handle, an open connection)"""
+
+    def __init__(self, pk):
+        self._pk = pk
+
+    def __copy__(self):
+        raise TypeError("NoCopy objects cannot be copied")
+
+    def __deepcopy__(self, memo):
+        raise TypeError("NoCopy objects cannot be deep-copied")
+
+    def __reduce_ex__(self, protocol):
+        raise TypeError("NoCopy objects cannot be pickled")
+
+
+class CopyDiff:
+    """a copy is a different thing: `__deepcopy__` / `__copy__` hand back an object that is not equal to the original"""
+
+    def __init__(self, pk, generation=0):
+        self._pk = pk
+        self.generation = generation
+
+    def __eq__(self, other):
+        return isinstance(other, CopyDiff) and (self._pk, self.generation) == (other._pk, other.generation)
+
+    def __hash__(self):
+        return hash(("CopyDiff", self._pk, self.generation))
+
+    def __copy__(self):
+        return CopyDiff(self._pk, self.generation + 1)
+
+    def __deepcopy__(self, memo):
+        return CopyDiff(self._pk, self.generation + 1)
+
+
+class EqByValue:
+    """equal by value, so a copy is `==` to the original while not being it (a frozen config record)"""
+
+    def __init__(self, pk, payload):
+        self._pk = pk
+        self.payload = payload
+
+    def __eq__(self, other):
+        return isinstance(other, EqByValue) and self.payload == other.payload
+
+    def __hash__(self):
+        return hash(("EqByValue", self._pk))  # distinct per pool object, see design.d/C17.md (class cache of inputs_to_dict)
+
+
+class NotData:
+    """looks like pyiron_workflow.channels.NOT_DATA (class name, repr, falsy) but is an ordinary value"""
+
+    def __init__(self, pk):
+        self._pk = pk
+
+    def __repr__(self):
+        return "NOT_DATA"
+
+    def __bool__(self):
+        return False
+
+
+class Colour(_enum.Enum):
+    RED = 1
+    GREEN = 2
+
+
+def pool_function(x=None):
+    """a module level function used as a default value"""
+    return x
+
+
+pool_lambda = lambda x=None: x  # noqa: E731
+
+
+class PoolClass:
+    """a class object used as a default value"""
+
+
+POOL: list = []
+KINDS: list = []
+
+
+def _add(kind, make):
+    POOL.append(make(len(POOL)))
+    KINDS.append(kind)
+
+
+# two objects of every identity-compared kind: "the default" and "another one that looks just like it"
+_add("object", lambda k: object())
+_add("object", lambda k: object())
+_add("marker", Marker)
+_add("marker", Marker)
+_add("nevereq", NeverEq)
+_add("nevereq", NeverEq)
+_add("alwayseq", AlwaysEq)
+_add("alwayseq", AlwaysEq)
+_add("nocopy", NoCopy)
+_add("nocopy", NoCopy)
+_add("copydiff", CopyDiff)
+_add("copydiff", CopyDiff)
+_add("eqbyvalue", lambda k: EqByValue(k, ("cfg", 1)))
+_add("eqbyvalue", lambda k: EqByValue(k, ("cfg", 1)))
+_add("notdata", NotData)
+_add("notdata", NotData)
+_add("list", lambda k: [1, 2])  # a shared mutable default
+_add("list", lambda k: [1, 2])
+_add("dict", lambda k: {"k": 1})
+_add("dict", lambda k: {"k": 1})
+_add("set", lambda k: {1, 2})
+_add("bytearray", lambda k: bytearray(b"ab"))
+_add("nan", lambda k: float("nan"))
+_add("nan", lambda k: float("nan"))
+_add("enum", lambda k: Colour.RED)
+_add("enum", lambda k: Colour.GREEN)
+_add("class", lambda k: PoolClass)
+_add("class", lambda k: Marker)
+_add("function", lambda k: pool_function)
+_add("lambda", lambda k: pool_lambda)
+_add("ellipsis", lambda k: Ellipsis)
+_add("nestedlist", lambda k: [[1], {"a": [2]}])  # a shallow copy is not enough to tell either
+
+_BY_ID = {id(o): k for k, o in enumerate(POOL)}
+
+HASHABLE_KINDS = {"object", "marker", "nevereq", "alwayseq", "nocopy", "copydiff", "eqbyvalue", "notdata", "nan",
+                  "enum", "class", "function", "lambda", "ellipsis"}
+#: kinds for which `x is default` is the only sensible test a function body can make
+IDENTITY_KINDS = {"object", "marker", "nevereq", "alwayseq", "nocopy", "copydiff", "eqbyvalue", "notdata", "list", "dict",
+                  "set", "bytearray", "nan", "nestedlist"}
+
+
+def pool_token(v):
+    """`@<index>.<kind>` if `v` IS a pool object; `~<index>.<kind>` if it is a copy of one (an instance of a pool class
+    carrying the index of its original); None otherwise"""
+    k = _BY_ID.get(id(v))
+    if k is not None and POOL[k] is v:
+        return f"@{k}.{KINDS[k]}"
+    pk = None
+    if type(v) in (Marker, NeverEq, AlwaysEq, NoCopy, CopyDiff, EqByValue, NotData):
+        try:
+            pk = object.__getattribute__(v, "_pk")
+        except AttributeError:
+            pk = None
+    if isinstance(pk, int) and 0 <= pk < len(POOL):
+        return f"~{pk}.{KINDS[pk]}"
+    if type(v) is object:
+        return "~?.object"
+    if isinstance(v, float) and v != v:
+        return "~?.nan"
+    return None
+
+
+def pool_index(t: str) -> int:
+    """index of the pool object named by the token `@<index>.<kind>`"""
+    k, kind = t[1:].split(".", 1)
+    k = int(k)
+    if KINDS[k] != kind:
+        raise ValueError(t)
+    return k
+
+
+def siblings(k: int) -> list[int]:
+    """the other pool objects of the same kind"""
+    return [j for j, kind in enumerate(KINDS) if kind == KINDS[k] and j != k]
